@@ -257,11 +257,14 @@ fn retype(v: dicom_core::value::Value) -> Option<DValue<InMemDicomObject>> {
 }
 
 /// Minimal object around an encapsulated Pixel Data value (helpers, hand-built sequences).
-fn generic_object(value: DValue<InMemDicomObject>, frames: usize) -> FileDicomObject<InMemDicomObject> {
+/// `with_nof = false` leaves Number of Frames out (only for one frame: absent means 1)
+fn generic_object(value: DValue<InMemDicomObject>, frames: usize, with_nof: bool) -> FileDicomObject<InMemDicomObject> {
     let mut o = InMemDicomObject::new_empty();
     o.put(DataElement::new(Tag(0x0008, 0x0016), VR::UI, PrimitiveValue::from("1.2.840.10008.5.1.4.1.1.7")));
     o.put(DataElement::new(Tag(0x0008, 0x0018), VR::UI, PrimitiveValue::from("1.2.826.0.1.3680043.8.498.2")));
-    o.put(DataElement::new(Tag(0x0028, 0x0008), VR::IS, PrimitiveValue::from(frames.to_string())));
+    if with_nof || frames != 1 {
+        o.put(DataElement::new(Tag(0x0028, 0x0008), VR::IS, PrimitiveValue::from(frames.to_string())));
+    }
     o.put(DataElement::new_with_len(Tag(0x7FE0, 0x0010), VR::OB, Length::UNDEFINED, value));
     wrap(o, TS_JPEG_BASELINE)
 }
@@ -313,7 +316,7 @@ fn helper_leg(cfg: &Cfg, sink: &Mutex<Sink>) -> Local {
                                     return;
                                 }
                             };
-                            let obj = generic_object(v, frames);
+                            let obj = generic_object(v, frames, idx % 2 == 0);
                             let k = Known { origin: "helper:encapsulate", frames, frags_per_frame: vec![1; frames], helper_frames: Some(&data) };
                             check_object(l, sink, &obj, &k, &replay);
                         }
@@ -355,7 +358,7 @@ fn helper_leg(cfg: &Cfg, sink: &Mutex<Sink>) -> Local {
                                     return;
                                 }
                             };
-                            let obj = generic_object(v, 1);
+                            let obj = generic_object(v, 1, idx % 2 == 0);
                             let k = Known { origin: "helper:encapsulate_single_frame", frames: 1, frags_per_frame: vec![nf], helper_frames: Some(&data) };
                             check_object(l, sink, &obj, &k, &replay);
                         }
@@ -400,7 +403,7 @@ fn helper_leg(cfg: &Cfg, sink: &Mutex<Sink>) -> Local {
                                 }
                             }
                             let fpf = if frames == 1 { vec![nfrag] } else { vec![1; frames] };
-                            let obj = generic_object(DValue::PixelSequence(seq), frames);
+                            let obj = generic_object(DValue::PixelSequence(seq), frames, idx % 2 == 0);
                             let k = Known { origin: "helper:Fragments", frames, frags_per_frame: fpf, helper_frames: Some(&data) };
                             check_object(l, sink, &obj, &k, &replay);
                         }
@@ -523,10 +526,10 @@ fn handbuilt_leg(cfg: &Cfg, sink: &Mutex<Sink>) -> Local {
                 bot.clear();
             }
             let empty_bot = bot.is_empty();
-            l.class(format!("handbuilt|f{}|{}|{}", frames.min(9), if multi { "multi" } else { "1:1" }, if empty_bot { "emptybot" } else { "bot" }));
+            l.class(format!("handbuilt|f{}|{}|{}|nof{}", frames.min(9), if multi { "multi" } else { "1:1" }, if empty_bot { "emptybot" } else { "bot" }, (idx % 2 == 0 || frames != 1) as u8));
             let lens: Vec<usize> = frags.iter().map(|f| f.len()).collect();
             let replay = || json!({"seed": cfg.seed, "stream": 183, "case": idx, "hand_built": true, "fragments_per_frame": fpf, "fragment_lengths": lens, "offset_table": bot});
-            let obj = generic_object(DValue::PixelSequence(PixelFragmentSequence::new(bot.clone(), frags.clone())), frames);
+            let obj = generic_object(DValue::PixelSequence(PixelFragmentSequence::new(bot.clone(), frags.clone())), frames, idx % 2 == 0);
             // only frame extraction is under test here (the object was not encapsulated by dicom-rs)
             let mut fi = 0usize;
             for (f, k) in fpf.iter().enumerate() {
